@@ -237,7 +237,23 @@ fn cases_ext(nsegs: usize, envs: &'static [usize]) -> Box<dyn Iterator<Item = Ca
         }
         let mut v = Vec::new();
         // (`$1` is a positional parameter: outside of scripts its expansion is not part of this property)
-        let positional = segs.windows(2).any(|w| EXT[w[0]] == "$" && EXT[w[1]] == "1");
+        // decided on the text, scanning as the expander does: in `$$$1` the first two characters are the pid, then `$1`
+        let text: Vec<char> = segs.iter().map(|i| EXT[*i]).collect::<String>().chars().collect();
+        let mut positional = false;
+        let mut k = 0;
+        while k + 1 < text.len() {
+            if text[k] == '$' {
+                if text[k + 1] == '$' || text[k + 1] == '?' {
+                    k += 2;
+                    continue;
+                }
+                if text[k + 1].is_ascii_digit() {
+                    positional = true;
+                    break;
+                }
+            }
+            k += 1;
+        }
         if segs.iter().any(|i| *i >= SEGS.len()) && !positional {
             for &env in envs {
                 for exported in [true, false] {
